@@ -189,6 +189,12 @@ func main() {
 			}
 		}
 	}
+	if *out != "" {
+		if err := emitAccess(pkgs, *out); err != nil {
+			fmt.Fprintln(os.Stderr, err)
+			os.Exit(2)
+		}
+	}
 	if *factsPath != "" {
 		j, _ := json.MarshalIndent(facts, "", " ")
 		if err := os.WriteFile(*factsPath, j, 0o644); err != nil {
